@@ -71,6 +71,7 @@ class SeqRun(seq_hooks.HooksMixin, object):
         # what the damaged session does next is judged by their own oracles
         self.go_on_after_c13 = bool(case.get('go_on_after_c13'))
         self.want_inv = case.get('invariants', True)
+        self.peer_fired = []
         self.fault_fired_in_session = False
         self.c13_hits = 0
         self.cur_op_desc = ''
@@ -86,6 +87,9 @@ class SeqRun(seq_hooks.HooksMixin, object):
             # session, only the all-or-nothing comparison when the session has been rolled back is judged
             return
         key = '%s|%s|%s' % (prop, sub, shape)
+        if getattr(self, 'peer', None) and not key.startswith(PEER_JUDGED):
+            # a peer wrote behind the session's back: the model does not follow the session any more (see op_peer)
+            return
         if prop == 'C13':
             self.c13_hits += 1
         if not any(v['key'] == key for v in self.violations):
@@ -458,6 +462,8 @@ class SeqRun(seq_hooks.HooksMixin, object):
                 traceback.print_exc()
             self.trace.append('%s.%s FAIL %s -> %s: %s' % (self.sess_index, self.op_index, desc, type(e).__name__, str(e)[:100]))
             self.probe('refused_' + type(e).__name__)
+            if getattr(self, 'peer', None):
+                raise Poisoned()        # after a peer's write any error ends the session (see op_peer)
             fault = len(simdb.ctx.fired) > g0
             if fault:
                 self.fault_fired_in_session = True
@@ -562,6 +568,10 @@ class SeqRun(seq_hooks.HooksMixin, object):
 
 
 from . import seq_ops  # noqa: E402  (operation interpreter, kept in a second file)
+
+
+PEER_JUDGED = ('C11|index-', 'C11|object-', 'C09|update-of-vanished-row-accepted', 'C09|rolled-back-changes-visible',
+               'C09|failed-session-changes-visible', 'C14|duplicate-key-in-database', 'C15|dangling-reference')
 
 
 def run_case(case, scratch):
